@@ -55,6 +55,7 @@ def run(report, db, tier):
                 'compression_threshold', 'compression_enabled'),
             what='compression threshold') or 0
     report.floor('set-compression paths checked', nsw, 2)
+    whole_frames(report, db, cg, S)
     from ..common import borrow
     from . import c16
     from .. import pathsum
@@ -103,6 +104,51 @@ def conn_attr_uses(db, cg, M, attr, aliases=False):
                     n.id in alias:
                 out.append((fi, n))
     return out
+
+
+def whole_frames(report, db, cg, S):
+    """A frame is sent only once the packet has been serialised completely:
+    on no path of Packet.write does the frame writer (or a send on the
+    socket) run after the serialisation raised -- a clean-up clause that
+    flushes the buffer would put half a packet, well framed, on the wire."""
+    from ..pathsum import struct, show
+    R = report.rule('R12.9', 'a packet reaches the wire whole or not at all: '
+                    'in Packet.write nothing is sent on a path on which the '
+                    'serialisation of the id or the fields raised')
+    pk = db.get_class(PACKET, 'Packet')
+    wr = db.own_method(pk, 'write')
+    wb = db.own_method(pk, '_write_buffer')
+    if wr is None:
+        raise AnalysisError('Packet.write vanished')
+    sock = ('sym', wr.all_params[1])
+    n = 0
+    bad = None
+    for p in S.run(wr):
+        evs = p.flat(('call',))
+        first = [i for i, e in enumerate(evs) if e.raised]
+        if not first:
+            continue
+        n += 1
+        for e in evs[first[0] + 1:]:
+            sends = (wb is not None and e.calls(wb)) or (
+                e.method() in ('send', 'sendall') and (
+                    (e.fn[0] == 'attr' and struct(e.fn[1]) == sock) or
+                    (e.fn[0] == 'fn' and len(e.fn) > 2 and
+                     e.fn[2] is not None and struct(e.fn[2]) == sock)))
+            if sends and not e.raised:
+                bad = (evs[first[0]], e)
+    if bad:
+        report.violation(R, 'frame:partial', wr.path, bad[1].node,
+                         wr.qualname, 'when %s raises, %s still runs: the '
+                         'part of the packet serialised so far is framed '
+                         'and sent before the exception propagates'
+                         % (show(bad[0].fn)[:50], show(bad[1].fn)[:50]))
+    else:
+        report.ok(R, 'nothing is sent after a failed serialisation '
+                  '(%d raising paths)' % n)
+    # (exceptions are followed only where a try statement can see them:
+    # without one in Packet.write there is nothing to check)
+    report.floor('paths of Packet.write', len(S.run(wr)), 1)
 
 
 def r1(report, db, cg, M):
